@@ -544,3 +544,77 @@ REG.spec('utils/component.py:BaseComponent.work_cb#dispatch',
                      'forall(lambda j: implies(0 <= j < i_thing, things[j].exception is not None))']},
     opts     = dict(merge='scalars'),
     serves   = ['C05'])
+
+
+# ------------------------------------------------------------------------------
+# Popen._launch_task: the process is spawned, and from then on somebody must
+# collect it - the task is handed to the watcher exactly once on every return,
+# before a late cancel request is acted on (cancel_task declines a process that
+# has already exited and relies on the watcher to collect it)
+PLTask = T.Rec('PLTask', uid=T.Str, proc=T.Opt(Proc), task_sandbox_path=T.Str, launch_path=T.Str)
+REG.optional_keys['PLTask'] = {'proc'}
+RCfgL = T.Rec('RCfgL', new_session_per_task=T.Opt(T.Bool))
+SessL = T.Rec('SessL', rcfg=RCfgL)
+
+def _l_spawn(ex, node, st):
+    """sp.Popen(...): a process, or an exception and no process"""
+    e = st.fork(); e.guards = []
+    ex.exits.append(('Exception', e, ex.cur_line))
+    return fresh(Proc, 'proc')
+_l_spawn.mutates = ()
+
+def _l_open(ex, node, st):
+    e = st.fork(); e.guards = []
+    ex.exits.append(('Exception', e, ex.cur_line))
+    return Val(T.Any, z3.Const(C.fresh_name('fh'), C.AnySort))
+_l_open.mutates = ()
+
+def _l_watch(ex, node, st):
+    t = ex.ev(node.args[0], st)
+    log = ex.get_var(st, 'watch_log')
+    ty = log.ty
+    n = ty.len(log.term)
+    st.env['watch_log'] = Val(ty, ty.mk(z3.Store(ty.arr(log.term), n, t.ty.get(t.term, 'uid')), n + 1))
+    return C.NONE
+_l_watch.mutates = ('watch_log',)
+
+def _l_is_canceled(ex, node, st):
+    return fresh(T.Opt(T.Bool), 'canceled')
+_l_is_canceled.mutates = ()
+
+def _l_cancel(ex, node, st):
+    t = ex.ev(node.args[0], st)
+    log = ex.get_var(st, 'watch_log')
+    ty = log.ty
+    i = z3.Int(C.fresh_name('i'))
+    uid = t.ty.get(t.term, 'uid')
+    ex.oblige(st, 'handed-to-the-watcher-before-a-late-cancel-is-acted-on@L%s' % ex.cur_line,
+              z3.Exists([i], z3.And(0 <= i, i < ty.len(log.term), z3.Select(ty.arr(log.term), i) == uid)), 'post',
+              note='cancel_task leaves a process that has already exited to the watcher: the task must be in the watch queue by then')
+    n = ex.get_var(st, 'n_cancel')
+    st.env['n_cancel'] = Val(T.Int, n.term + 1)
+    return C.NONE
+_l_cancel.mutates = ('n_cancel',)
+
+REG.spec('agent/executing/popen.py:Popen._launch_task',
+    params   = dict(task=PLTask),
+    self     = dict(session=SessL),
+    globals  = dict(_pids=T.List(T.Int)),
+    ghost    = dict(watch_log=T.List(T.Str), n_cancel=T.Int),
+    locals   = dict(_launch_out_h=T.Any),
+    calls    = {'ru.ru_open': _l_open, 'sp.Popen': _l_spawn, 'self.is_canceled': _l_is_canceled,
+                'self.cancel_task': _l_cancel},
+    effects  = {'self.handle_timeout': ignore_call, 'self._watch_queue.put': _l_watch},
+    requires = ['task.proc is None'],
+    modifies = ['task', 'watch_log', 'n_cancel', '_pids'],
+    raises   = {'Exception': 'True'},
+    raises_weak = ['Exception'],
+    exc_ensures = {'Exception': [('a-failed-spawn-leaves-no-process-and-nothing-to-watch',
+                                  'task.proc is None and watch_log == old(watch_log) and n_cancel == old(n_cancel)')]},
+    ensures  = [
+      ('a-spawned-task-is-handed-to-the-watcher-exactly-once-on-every-return',
+       'task.proc is not None and len(watch_log) == len(old(watch_log)) + 1 and watch_log[len(old(watch_log))] == old(task).uid'),
+      ('earlier-watch-entries-kept', 'forall(lambda k: implies(0 <= k < len(old(watch_log)), watch_log[k] == old(watch_log)[k]))'),
+      ('a-late-cancel-is-acted-on-at-most-once', 'n_cancel <= old(n_cancel) + 1'),
+    ],
+    serves   = ['C07', 'C08'])
